@@ -32,13 +32,32 @@ type scFrame struct {
 
 // buildScopeProgram turns a history into a program; open constructs are
 // closed at the end.  K = 10*step is the fresh value of each step.
-func buildScopeProgram(hist []scEvent) []*model.N {
+func buildScopeProgram(hist []scEvent) []*model.N { return buildScopeProgramX(hist, "x") }
+
+// buildScopeProgramX spells the name x as xName.  When xName is the name of a
+// built-in, the program-level binding of x is the built-in itself (no ধরি, which
+// the parser refuses for such names) and the only scopes that can bind it are
+// function activations through a parameter.
+func buildScopeProgramX(hist0 []scEvent, xName string) []*model.N {
+	hist := hist0
+	if xName != "x" {
+		hist = make([]scEvent, len(hist0))
+		for i, e := range hist0 {
+			if e.Name == "x" {
+				e.Name = xName
+			}
+			hist[i] = e
+		}
+	}
 	top := []*model.N{
 		model.Var("x", model.Num(0)),
-		model.Fun("rx", nil, model.Print(model.Id("x"))),
-		model.Fun("wx", []string{"v"}, model.ExprS(model.Asg("x", model.Id("v")))),
+		model.Fun("rx", nil, model.Print(model.Id(xName))),
+		model.Fun("wx", []string{"v"}, model.ExprS(model.Asg(xName, model.Id("v")))),
 		model.Fun("dx", []string{"v"}, model.Var("x", model.Id("v")), model.Print(model.Id("x"))),
 		model.Fun("rq", nil, model.Print(model.Id("q"))),
+	}
+	if xName != "x" {
+		top = []*model.N{top[1], top[2], top[4]}
 	}
 	type fr struct {
 		body  []*model.N
@@ -90,6 +109,13 @@ func buildScopeProgram(hist []scEvent) []*model.N {
 			stack = append(stack, &fr{close: func(b []*model.N) []*model.N {
 				return []*model.N{model.Fun(fn, nil, b...), model.ExprS(model.CallN(fn))}
 			}})
+		case "openfunp": // a function whose parameter has the name; called with the step's fresh value
+			fn := "g" + id
+			name := e.Name
+			arg := K
+			stack = append(stack, &fr{close: func(b []*model.N) []*model.N {
+				return []*model.N{model.Fun(fn, []string{name}, b...), model.ExprS(model.CallN(fn, arg))}
+			}})
 		case "close":
 			pop()
 		case "call":
@@ -122,6 +148,22 @@ func C03(c *fw.Ctx) {
 	c.Bound("history_max_events", maxLen)
 	c.Bound("max_open_constructs", maxDepth)
 	c.R.Rule = "every well-nested history of scope events (declare/assign/read of the colliding names x y q; open/close of block, if-arm, while body, for with a header declaration, function body; calls of prelude functions that read/assign/declare x or read q; creation and call of closures) up to the length bound, each prefix closed and run as a program; leaves: the first error, and programs the domain restriction excludes; non-trivial = in domain; distinct by program text"
+	scopeWalk(c, "scope", "x", maxLen, maxDepth)
+	// the same walk with x spelled as the name of a built-in: its program-level binding is the
+	// built-in, the only scopes that can bind it are activations of a function with such a parameter
+	bl := maxLen - 1
+	for i, b := range model.Builtins {
+		l := bl - 1
+		if b == model.BiLen || b == model.BiInputLatin || i == len(model.Builtins)-1 {
+			l = bl
+		}
+		scopeWalk(c, "scope-builtin-name", b, l, maxDepth)
+	}
+	c03Escaping(c)
+}
+
+func scopeWalk(c *fw.Ctx, sig, xName string, maxLen, maxDepth int) {
+	builtinX := xName != "x"
 	names := []string{"x", "y", "q"}
 	var hist []scEvent
 	var opens []string // kinds of the open constructs
@@ -132,8 +174,8 @@ func C03(c *fw.Ctx) {
 		// run the program for this history
 		extend := true
 		if c.Mine() {
-			prog := buildScopeProgram(hist)
-			_, res, skipped := judge(c, prog, judgeOpts{SigPrefix: "scope"})
+			prog := buildScopeProgramX(hist, xName)
+			_, res, skipped := judge(c, prog, judgeOpts{SigPrefix: sig})
 			if !skipped {
 				c.R.States++
 				if len(hist) > 0 {
@@ -144,11 +186,11 @@ func C03(c *fw.Ctx) {
 				extend = false
 			}
 			if c.R.States%20000 == 1 && len(hist) >= 3 {
-				c.Sample(map[string]interface{}{"history": fmt.Sprint(hist), "program": model.Render(parenAll(buildScopeProgram(hist)))})
+				c.Sample(map[string]interface{}{"history": fmt.Sprint(hist), "program": model.Render(parenAll(buildScopeProgramX(hist, xName)))})
 			}
 		} else {
 			// other shards own this node; we still need to know whether it is a leaf
-			prog := parenAll(buildScopeProgram(hist))
+			prog := parenAll(buildScopeProgramX(hist, xName))
 			model.Render(prog)
 			res := (&model.Machine{}).Run(prog)
 			if res.Err != nil || res.Unspec != "" || res.Diverged {
@@ -168,15 +210,23 @@ func C03(c *fw.Ctx) {
 			hist = hist[:len(hist)-1]
 		}
 		for _, n := range []string{"x", "y"} {
+			if builtinX && n == "x" {
+				continue
+			}
 			try(scEvent{"declL", n}, nil)
 			try(scEvent{"declN", n}, nil)
 		}
 		for _, n := range names {
-			try(scEvent{"decl", n}, nil)
+			if !(builtinX && n == "x") {
+				try(scEvent{"decl", n}, nil)
+			}
 			try(scEvent{"asg", n}, nil)
 			try(scEvent{"read", n}, nil)
 		}
 		for _, f := range []string{"rx", "wx", "dx", "rq"} {
+			if builtinX && f == "dx" {
+				continue
+			}
 			try(scEvent{"call", f}, nil)
 		}
 		for _, n := range []string{"x", "y"} {
@@ -193,8 +243,11 @@ func C03(c *fw.Ctx) {
 			}
 		}
 		if len(opens) < maxDepth {
-			kinds := []scEvent{{"open", ""}, {"openif", ""}, {"openwh", ""}, {"openfor", "x"}, {"openfor", "y"}, {"openfun", ""}}
+			kinds := []scEvent{{"open", ""}, {"openif", ""}, {"openwh", ""}, {"openfor", "x"}, {"openfor", "y"}, {"openfun", ""}, {"openfunp", "x"}, {"openfunp", "q"}}
 			for _, k := range kinds {
+				if builtinX && k.Op == "openfor" && k.Name == "x" {
+					continue
+				}
 				try(k, func() {
 					opens = append(opens, k.Op)
 					clos = append(clos, nil)
@@ -217,6 +270,9 @@ func C03(c *fw.Ctx) {
 		}
 	}
 	rec()
+}
+
+func c03Escaping(c *fw.Ctx) {
 	// escaping closures: a function F with a parameter and a body-level local; a closure declared at
 	// one of five sites of F's body reads / assigns one of them, escapes through a program-level
 	// variable and is used after F has returned: directly, after other calls have come and gone, and
